@@ -87,6 +87,27 @@ def invalid_programs() -> Iterator[tuple[str, Any]]:
     yield "C10.macro-recursive", ("expect-reject", prog([("macrocall", "r", [])], [("macro", "r", [], [("macrocall", "r", [])])]))
     yield "C10.macro-mutual", ("expect-reject", prog([("macrocall", "r", [])], [("macro", "r", [], [("macrocall", "q", [])]),
                                                                                ("macro", "q", [], [("macrocall", "r", [])])]))
+    # every digraph with a cycle on <= 3 macros (self-loops, 2- and 3-cycles, with acyclic helpers called from or calling into
+    # the cycle) x every definition order: recursion must be rejected with a documented exception, wherever the helper sits
+    import itertools
+
+    names = ["ca", "cb", "cc"]
+    for n in (1, 2, 3):
+        pairs = [(i, j) for i in range(n) for j in range(n)]
+        for mask in range(1, 1 << len(pairs)):
+            edges = [pairs[k] for k in range(len(pairs)) if mask >> k & 1]
+            reach = {i: {j for (a, j) in edges if a == i} for i in range(n)}
+            for _ in range(n):
+                for i in range(n):
+                    for j in list(reach[i]):
+                        reach[i] |= reach[j]
+            if not any(i in reach[i] for i in range(n)):
+                continue
+            ms = [("macro", names[i], [], [op(f"in_{names[i]}")] + [("macrocall", names[j], []) for (a, j) in edges if a == i])
+                  for i in range(n)]
+            for oi, order in enumerate(itertools.permutations(range(n))):
+                yield (f"C10.macro-cycle.{n}.{mask}.o{oi}",
+                       ("expect-reject", prog([("macrocall", names[i], []) for i in range(n)], [ms[i] for i in order])))
     yield "C10.macro-break-in-macro", ("expect-reject", prog([("macrocall", "b", [])], [("macro", "b", [], [("ctrl", "break")])]))
     # raw texts the AST printer cannot produce
     raws = {
